@@ -243,6 +243,7 @@ func c14Scenarios() []c14Scenario {
 		mk("S9-health-reload", setup, o("HEALTH"), []world.Op{{K: "CONFIG", N: 1}}, o("SCHEDULE")),
 		mkReserve("S10-reserve-vs-ask-removal"),
 		mkPreempt("S4-preemption-release-rest"),
+		mkPreempt5("S13-multi-victim-preemption-release"),
 		mk("S11-rejected-application-rest", setup, o("APP_ADD", "bad"), o("REST"), o("SCHEDULE")),
 		mk("S12-reload-dynamic-queue-cleanup", setup, []world.Op{{K: "CONFIG", N: 1}}, o("APP_ADD", "app3"), o("CLEAN_QUEUES")),
 	}
@@ -261,6 +262,13 @@ func mkPreempt(name string) c14Scenario {
 	s := scnPreempt("c14-"+name, true)
 	s.Prefix = append(s.Prefix, op("ASK", "a1"))
 	return c14Scenario{Name: name, Scn: s, Threads: [][]world.Op{{op("SCHEDULE")}, {op("RELEASE", "b1")}, {op("REST")}}}
+}
+
+// a preemption that needs three victims || release of one of the older victim candidates || a placeholder style release
+func mkPreempt5(name string) c14Scenario {
+	s := scnPreemptG5("c14-" + name)
+	s.Prefix = append(s.Prefix, op("ASK", "a2"))
+	return c14Scenario{Name: name, Scn: s, Threads: [][]world.Op{{op("SCHEDULE")}, {op("RELEASE", "b3")}, {op("RELEASE", "b1")}}}
 }
 
 type c14Run struct {
@@ -354,7 +362,7 @@ func c14Exec(sc c14Scenario, prefix []int) (*ilv.Result, string, []mc.Violation,
 			last, stable = n, 0
 		}
 	}
-	w.Rec.Drain()
+	outbound := w.Rec.Drain()
 	final := w.Snapshot()
 	st := &world.Step{Op: world.Op{K: "CONCURRENT"}}
 	var viol []mc.Violation
@@ -362,6 +370,32 @@ func c14Exec(sc c14Scenario, prefix []int) (*ilv.Result, string, []mc.Violation,
 	for _, m := range []mc.Monitor{monC01(), monC03(), monC09(), monC11(), monC05()} {
 		for _, x := range m.Step(sc.Scn, final, st, final, counts) {
 			viol = append(viol, v("C14", "final-state-"+x.Prop+"-"+x.Rule, sc.Name, "after the concurrent run of %v: %s", names, x.Detail))
+		}
+	}
+	// every allocation that ends up marked for preemption was announced to the shim (C07: "announced exactly once")
+	announced := map[string]int{}
+	for _, o := range outbound {
+		if o.T == "release" && o.Term == "PREEMPTED_BY_SCHEDULER" {
+			announced[o.Key]++
+		}
+	}
+	for _, p := range w.Model.Pending {
+		if p.Term == "PREEMPTED_BY_SCHEDULER" {
+			announced[p.Key]++
+		}
+	}
+	for _, id := range sortedKeys(final.Apps) {
+		a := final.Apps[id]
+		if a.Where != "active" {
+			continue
+		}
+		for _, k := range sortedKeys(a.Allocs) {
+			if a.Allocs[k].Preempted && announced[k] == 0 {
+				viol = append(viol, v("C14", "final-state-C07-preempted-without-announcement", sc.Name, "after the concurrent run of %v: allocation %s of %s is marked for preemption but no PREEMPTED_BY_SCHEDULER release was ever sent for it", names, k, id))
+			}
+			if announced[k] > 1 {
+				viol = append(viol, v("C14", "final-state-C07-victim-announced-twice", sc.Name, "after the concurrent run of %v: victim %s was announced %d times", names, k, announced[k]))
+			}
 		}
 	}
 	digest := world.Hash(world.J(map[string]interface{}{"q": final.Queues, "a": final.Apps, "n": final.Nodes, "u": final.Users, "g": final.Gone}))
